@@ -66,7 +66,7 @@ func vRingAt(data []byte, i int) byte {
 
 func vRingSizes() []int {
 	if vThorough() {
-		return []int{4, 5, 7, 9}
+		return []int{4, 5, 7}
 	}
 	return []int{4, 7}
 }
